@@ -199,6 +199,8 @@ def check(prog: Program, res: Result) -> None:
     c09.check_alloc(prog, res, rule="C10-alloc")
     check_col(prog, res)
     check_pair(prog, res)
+    from . import _match
+    _match.check_greedy(prog, res, "C10-match")
     res.assumptions.append("identity continuity over histories (numerical scores, matcher optimality) is not decided")
 
 
